@@ -69,11 +69,16 @@ pub fn interp1d_linear_unchecked(
     for i in 0..k {
         // find the closest supplied x (lower and upper)
         let mut idx = 0;
-        for j in 0..n - 1 {
+        for j in 0..n {
             if x[j] > tgt[i] {
                 break;
             }
             idx += 1;
+        }
+        // a target equal to the last x lies on the last segment; anything beyond it is out of
+        // bounds on the right
+        if idx == n {
+            idx = if tgt[i] <= x[n - 1] { n - 1 } else { n + 1 };
         }
 
         // out of bounds, optionally extrapolate
@@ -99,8 +104,8 @@ pub fn interp1d_linear_unchecked(
                     // extrapolate right
                     else if idx > n {
                         /* print("extrapolating right ", tgt[i]); */
-                        let slope = (y[n] - y[n - 1]) / (x[n] - x[n - 1]);
-                        interp.push(slope * (tgt[i] - x[n]) + y[n]);
+                        let slope = (y[n - 1] - y[n - 2]) / (x[n - 1] - x[n - 2]);
+                        interp.push(slope * (tgt[i] - x[n - 1]) + y[n - 1]);
                     }
                 }
             }
